@@ -152,4 +152,6 @@ def main(tier):
         ok = ('unknown',) not in kinds and (('bool',) in kinds or (('const', 0) in kinds and any(k[0] == 'const' and k[1] != 0 for k in kinds)))
         RR.check(ok, '%s:%s' % (u.name, sym), 'return values %s are not {0, non-zero constant} / a 0-1 flag' % sorted(map(str, kinds)),
                  sample='%s returns %s' % (sym, sorted(map(str, kinds))))
+    provenance.check_undef(rep, {'mem_zero'}, 'MEM', 4)
+    provenance.check_kwidth(rep, {'mem_zero'}, 'MEM', 4)
     return rep.finish()
